@@ -82,12 +82,18 @@ package collection
 //@   loop 1 invariant [cover] allint(o, inSp(c, o) && gMinX(objGeo(o)) < gMinX(objGeo(left)) ==> memberOf(seq1, o))
 //@   loop 1 invariant [seen] forall(i, 0, idx1, minX <= gMinX(objGeo(seq1[i]))) && minX <= gMinX(objGeo(left))
 //@   loop 1 invariant [attained] exint(o, inSp(c, o) && gMinX(objGeo(o)) == minX)
+//@   loop 2 keep [left-done] allint(o, inSp(c, o) ==> minX <= gMinX(objGeo(o))) && exint(o, inSp(c, o) && gMinX(objGeo(o)) == minX)
+//@   loop 2 forget 1
 //@   loop 2 invariant [cover] allint(o, inSp(c, o) && gMinY(objGeo(o)) < gMinY(objGeo(bottom)) ==> memberOf(seq2, o))
 //@   loop 2 invariant [seen] forall(i, 0, idx2, minY <= gMinY(objGeo(seq2[i]))) && minY <= gMinY(objGeo(bottom))
 //@   loop 2 invariant [attained] exint(o, inSp(c, o) && gMinY(objGeo(o)) == minY)
+//@   loop 3 keep [bottom-done] allint(o, inSp(c, o) ==> minY <= gMinY(objGeo(o))) && exint(o, inSp(c, o) && gMinY(objGeo(o)) == minY)
+//@   loop 3 forget 2
 //@   loop 3 invariant [cover] allint(o, inSp(c, o) && gMaxX(objGeo(right)) < gMaxX(objGeo(o)) ==> memberOf(seq3, o))
 //@   loop 3 invariant [seen] forall(i, 0, idx3, gMaxX(objGeo(seq3[i])) <= maxX) && gMaxX(objGeo(right)) <= maxX
 //@   loop 3 invariant [attained] exint(o, inSp(c, o) && gMaxX(objGeo(o)) == maxX)
+//@   loop 4 keep [right-done] allint(o, inSp(c, o) ==> gMaxX(objGeo(o)) <= maxX) && exint(o, inSp(c, o) && gMaxX(objGeo(o)) == maxX)
+//@   loop 4 forget 3
 //@   loop 4 invariant [cover] allint(o, inSp(c, o) && gMaxY(objGeo(top)) < gMaxY(objGeo(o)) ==> memberOf(seq4, o))
 //@   loop 4 invariant [seen] forall(i, 0, idx4, gMaxY(objGeo(seq4[i])) <= maxY) && gMaxY(objGeo(top)) <= maxY
 //@   loop 4 invariant [attained] exint(o, inSp(c, o) && gMaxY(objGeo(o)) == maxY)
